@@ -6,16 +6,37 @@ Open Scope Z_scope.
 Section W.
 Variable A : Type.
 
-(* every window decodes to the dense slice *)
+(* a non-empty window is the scalar code's *)
+Lemma start_to_end_v_nonempty (r : list Z * list A) (s e : Z) : s < e -> start_to_end_v r s e = start_to_end A r s e.
+Proof.
+  intros H. unfold start_to_end_v, start_to_end. destruct (e <=? s) eqn:E; [lia|]. now replace (Z.max (e - s) 0) with (e - s) by lia.
+Qed.
+(* an empty window holds no value, whatever the boundaries *)
+Lemma start_to_end_v_empty (r : list Z * list A) (s e : Z) : e <= s -> decode A (start_to_end_v r s e) = [].
+Proof.
+  intros H. unfold start_to_end_v, decode. destruct (e <=? s) eqn:E; [|lia]. cbn [fst snd].
+  unfold zslice_l, ztake. replace (Z.to_nat (ssr (fst r) s - 1 - (ssr (fst r) s - 1))) with 0%nat by lia. reflexivity.
+Qed.
+
+(* every window decodes to the dense slice: non-empty windows inside the array, and empty ones (stop <= start) anywhere *)
 Theorem rl_windows_decode (ev : list Z) (vs : list A) (ss es : list Z) :
+  length ev = length vs -> strictly_increasing (0 :: ev) ->
+  Forall (fun se => 0 <= fst se /\ (fst se < snd se -> snd se <= last (0 :: ev) 0)) (combine ss es) -> length ss = length es ->
+  map (decode A) (rl_windows (0 :: ev, vs) ss es) = map2 (fun s e => ztake (e - s) (zdrop s (decode A (0 :: ev, vs)))) ss es.
+Proof.
+  intros Hlen Hinc. unfold rl_windows. revert es. induction ss as [|s ss IH]; intros [|e es] H Hl; try discriminate; [reflexivity|].
+  inversion H as [|? ? (H1 & H2) Hr]; subst. cbn [fst snd] in *. cbn [map2 map]. f_equal.
+  - destruct (Z_lt_le_dec s e) as [Hse|Hse].
+    + rewrite (start_to_end_v_nonempty _ s e Hse). rewrite (start_to_end_decode A ev vs 0 s e Hlen Hinc H1 Hse (H2 Hse)). now rewrite Z.sub_0_r.
+    + rewrite (start_to_end_v_empty _ s e Hse). unfold ztake. now replace (Z.to_nat (e - s)) with 0%nat by lia.
+  - apply IH; [assumption|cbn in Hl; lia].
+Qed.
+Lemma rl_windows_decode_nonempty (ev : list Z) (vs : list A) (ss es : list Z) :
   length ev = length vs -> strictly_increasing (0 :: ev) ->
   Forall (fun se => 0 <= fst se /\ fst se < snd se /\ snd se <= last (0 :: ev) 0) (combine ss es) -> length ss = length es ->
   map (decode A) (rl_windows (0 :: ev, vs) ss es) = map2 (fun s e => ztake (e - s) (zdrop s (decode A (0 :: ev, vs)))) ss es.
 Proof.
-  intros Hlen Hinc. unfold rl_windows. revert es. induction ss as [|s ss IH]; intros [|e es] H Hl; try discriminate; [reflexivity|].
-  inversion H as [|? ? (H1 & H2 & H3) Hr]; subst. cbn [fst snd] in *. cbn [map2 map]. f_equal.
-  - rewrite (start_to_end_decode A ev vs 0 s e Hlen Hinc H1 H2 H3). now rewrite Z.sub_0_r.
-  - apply IH; [assumption|cbn in Hl; lia].
+  intros Hlen Hinc H Hl. apply rl_windows_decode; try assumption. eapply Forall_impl; [|exact H]. intros [s e] (H1 & H2 & H3). cbn [fst snd] in *. split; [lia|intros _; lia].
 Qed.
 
 (* filtering a dense array by the decoded mask = concatenating the slices of the mask's true runs *)
@@ -100,7 +121,7 @@ Proof.
   { unfold S, E. apply mask_filter_length2. rewrite excl_from_length.
     assert (G : forall (a b : list Z), length a = length b -> length (map2 Z.add a b) = length b) by (induction a as [|x a IH]; intros [|y b] H; cbn in *; try discriminate; [reflexivity|]; f_equal; apply IH; lia).
     symmetry. apply G. apply excl_from_length. }
-  rewrite (rl_windows_decode ev vs S E Hlen Hinc HSE HlenSE).
+  rewrite (rl_windows_decode_nonempty ev vs S E Hlen Hinc HSE HlenSE).
   assert (Hdm : decode bool (excl_from 0 lsM ++ [zsum lsM], bsM) = spec_broadcast bool bsM lsM).
   { unfold decode. cbn [fst snd]. f_equal. exact (diffs_evs lsM). }
   rewrite Hdm.
